@@ -92,13 +92,24 @@ func (t *Transaction) Transact(operations ...ovsdb.Operation) ([]*ovsdb.Operatio
 		case ovsdb.OperationWait:
 			r = t.Wait(op.Table, op.Timeout, op.Where, op.Columns, op.Until, op.Rows)
 		case ovsdb.OperationCommit:
-			durable := op.Durable
-			r = t.Commit(*durable)
+			if op.Durable == nil {
+				r = ovsdb.ResultFromError(fmt.Errorf("commit operation without \"durable\""))
+				break
+			}
+			r = t.Commit(*op.Durable)
 		case ovsdb.OperationAbort:
 			r = t.Abort()
 		case ovsdb.OperationComment:
+			if op.Comment == nil {
+				r = ovsdb.ResultFromError(fmt.Errorf("comment operation without \"comment\""))
+				break
+			}
 			r = t.Comment(*op.Comment)
 		case ovsdb.OperationAssert:
+			if op.Lock == nil {
+				r = ovsdb.ResultFromError(fmt.Errorf("assert operation without \"lock\""))
+				break
+			}
 			r = t.Assert(*op.Lock)
 		default:
 			r = ovsdb.ResultFromError(&ovsdb.NotSupported{})
